@@ -1,7 +1,13 @@
 package harness
 
 import (
+	"context"
+	"fmt"
+	"runtime"
+	"sync"
+	"sync/atomic"
 	"testing"
+	"time"
 
 	"github.com/bool64/cache"
 )
@@ -133,5 +139,139 @@ func TestC18Failover(t *testing.T) {
 			check("real", cache.MetricWrite, realWrites+float64(w.prepWrites))
 			check("real", cache.MetricDelete, float64(w.extDeleted))
 		})
+	})
+}
+
+const c18cRule = "free-running concurrent workloads on each backend with a counting tracker and a logger capturing the counts reported by ExpireAll/DeleteAll: 2-8 goroutines x 5-40 ops {Write of a UNIQUE key, Read, SkipRead Read, Delete, ExpireAll, DeleteAll, Len, Walk}; " +
+	"oracle at quiescence: cache_write == writes issued; hit+miss+expired == non-skipped reads + sum of ExpireAll counts; cache_delete == successful Deletes + sum of DeleteAll counts; conservation: every write creates an entry (unique keys, no eviction) so cache_write - cache_delete == Len(); " +
+	"non-trivial = a DeleteAll or ExpireAll ran concurrently with >=2 writer goroutines"
+
+type batchLogger struct {
+	mu                  sync.Mutex
+	expiredAll, deleted float64
+}
+
+func (l *batchLogger) Error(context.Context, string, ...interface{}) {}
+func (l *batchLogger) Important(_ context.Context, msg string, kv ...interface{}) {
+	cnt := 0.0
+
+	for i := 0; i+1 < len(kv); i += 2 {
+		if kv[i] == "count" {
+			if n, ok := kv[i+1].(int); ok {
+				cnt = float64(n)
+			}
+		}
+	}
+
+	l.mu.Lock()
+	defer l.mu.Unlock()
+
+	switch msg {
+	case "expired all entries in cache":
+		l.expiredAll += cnt
+	case "deleted all entries in cache":
+		l.deleted += cnt
+	}
+}
+
+// TestC18Concurrent: metrics account for every event exactly once under concurrency.
+func TestC18Concurrent(t *testing.T) {
+	runCheck(t, "C18", "C18Concurrent", c18cRule, func(c *Case) {
+		kind := backendKinds[c.Pick("backend", len(backendKinds))]
+		ng := c.Int("goroutines", 2, 8)
+
+		type op struct{ kind, arg int }
+
+		prog := make([][]op, ng)
+		batch := false
+
+		for g := range prog {
+			n := c.Int("nops", 5, 40)
+			for i := 0; i < n; i++ {
+				o := op{kind: c.Weighted("op", 10, 6, 1, 4, 1, 2, 1, 1), arg: c.Int("arg", 0, 63)}
+				if o.kind == 4 || o.kind == 5 {
+					batch = true
+				}
+
+				prog[g] = append(prog[g], o)
+			}
+		}
+
+		c.Class("backend=" + kind)
+
+		if batch && ng >= 3 {
+			c.NonTrivial()
+		}
+
+		tr := newCountTracker()
+		lg := &batchLogger{}
+		be := newCaseBackend(c, kind, cache.Config{
+			Name: "cc", Stats: tr, Logger: lg, ItemsCountReportInterval: farFuture, TimeToLive: time.Hour, ExpirationJitter: -1,
+			DeleteExpiredJobInterval: farFuture, DeleteExpiredAfter: farFuture,
+		})
+
+		var (
+			wg                       sync.WaitGroup
+			writes, reads, deletesOK int64
+			start                    = make(chan struct{})
+		)
+
+		for g := range prog {
+			g := g
+
+			wg.Add(1)
+
+			go func() {
+				defer wg.Done()
+
+				<-start
+
+				mine := 0
+
+				for i, o := range prog[g] {
+					switch o.kind {
+					case 0: // unique key
+						_ = be.Write(bg, []byte(fmt.Sprintf("u-%d-%d", g, mine)), "v")
+						mine++
+
+						atomic.AddInt64(&writes, 1)
+					case 1:
+						be.Read(bg, []byte(fmt.Sprintf("u-%d-%d", o.arg%len(prog), o.arg%8)))
+						atomic.AddInt64(&reads, 1)
+					case 2:
+						be.Read(cache.WithSkipRead(bg), []byte(fmt.Sprintf("u-%d-%d", g, 0)))
+					case 3:
+						if be.Delete(bg, []byte(fmt.Sprintf("u-%d-%d", o.arg%len(prog), o.arg%8))) == nil {
+							atomic.AddInt64(&deletesOK, 1)
+						}
+					case 4:
+						be.ExpireAll(bg)
+					case 5:
+						be.DeleteAll(bg)
+					case 6:
+						be.Len()
+					case 7:
+						_, _ = be.Walk(func([]byte, interface{}, time.Time) error { return nil })
+					}
+
+					if (g+i)%4 == 0 {
+						runtime.Gosched()
+					}
+				}
+			}()
+		}
+
+		close(start)
+		wg.Wait()
+
+		w := tr.get("cc", cache.MetricWrite)
+		d := tr.get("cc", cache.MetricDelete)
+		r := tr.get("cc", cache.MetricHit) + tr.get("cc", cache.MetricMiss) + tr.get("cc", cache.MetricExpired)
+		c.Tracef("writes=%d reads=%d deletesOK=%d expireAllCounts=%v deleteAllCounts=%v; metrics write=%v delete=%v hit+miss+expired=%v Len=%d",
+			writes, reads, deletesOK, lg.expiredAll, lg.deleted, w, d, r, be.Len())
+		c.Assert(w == float64(writes), "metric:cache_write", "cache_write = %v, %d writes were issued", w, writes)
+		c.Assert(r == float64(reads)+lg.expiredAll, "metric:reads", "hit+miss+expired = %v, %d non-skipped reads + %v entries reported by ExpireAll", r, reads, lg.expiredAll)
+		c.Assert(d == float64(deletesOK)+lg.deleted, "metric:cache_delete", "cache_delete = %v, %d successful Deletes + %v entries reported by DeleteAll", d, deletesOK, lg.deleted)
+		c.Assert(w-d == float64(be.Len()), "metric:conservation", "cache_write - cache_delete = %v but %d entries remain (every write created a new entry, nothing is evicted)", w-d, be.Len())
 	})
 }
